@@ -11,7 +11,8 @@ becomes part of the state automatically).
 
 Alphabet: solves A (8x6 double dispersion numeric), B (same shapes as A, other domain / profiles /
 source / background - collides with A on anything keyed by shape only), C (16x12 single footprint,
-default halo and modes), D (8x6 double analytic), E (8x6 double footprint, multi-level, halo 13);
+default halo and modes), D (8x6 double analytic), E (8x6 double footprint, multi-level, halo 13), G (as E on a 10x8 grid: same modes,
+domain and halo - collides with E on anything keyed without the grid);
 T1,T2,T4,T8: config.NUM_THREADS = k;  R: reset_fft_manager();  F: bare fft2/ifft2 round trip through
 the manager.  Environment axis: repository fftw_wisdom.pkl present / absent in the working directory.
 
@@ -35,12 +36,12 @@ PROPERTY = "C12"
 LEVEL = "model_checking"
 MANIFEST = {
     "technique": "explicit-state breadth-first search over call histories of the real library (one pristine forked process per history, states deduplicated by a canonical global-state digest), oracle = fresh-process result of the same call",
-    "text": "All call sequences up to the depth bound over an alphabet of five colliding solves, four thread settings, FFT-manager reset and bare FFTs, from both wisdom environments, are executed on the implementation itself; the search is closed under the library's own global state (every module-level object and closure cell is part of the state key), so any result that depends on what ran before - a cached grid keyed by shape, a reused output buffer, a kernel compiled for another flag, a thread setting left behind - shows as a difference from the fresh-process reference, a loss of bit-identity, or a mutated earlier result.",
+    "text": "All call sequences up to the depth bound over an alphabet of six colliding solves, four thread settings, FFT-manager reset and bare FFTs, from both wisdom environments, are executed on the implementation itself; the search is closed under the library's own global state (every module-level object and closure cell is part of the state key), so any result that depends on what ran before - a cached grid keyed by shape, a reused output buffer, a kernel compiled for another flag, a thread setting left behind - shows as a difference from the fresh-process reference, a loss of bit-identity, or a mutated earlier result.",
     "note": "Thread SETTINGS x histories are enumerated; the interleaving of numba's / FFTW's internal worker threads inside one kernel launch cannot be controlled from Python (the kernel has no reductions). State deduplication is validated in the thorough tier by re-running one full depth without deduplication and comparing the verdicts. FFTW plan-cache expiry (30 s keep-alive) is outside the horizon of a history (< 5 s).",
 }
 
-SOLVES = "ABCDE"
-OPS = ["A", "B", "C", "D", "E", "T1", "T2", "T4", "T8", "R", "F"]
+SOLVES = "ABCDEG"
+OPS = ["A", "B", "C", "D", "E", "G", "T1", "T2", "T4", "T8", "R", "F"]
 
 
 def solve_args(name):
@@ -62,6 +63,9 @@ def solve_args(name):
     if name == "E":
         z, prof = sl.build_profiles("most_aniso", 4)
         return dict(srf_flx=qB, z=z, profiles=prof, domain=(80.0, 90.0), levels=[4, 1, 3], modes=(8, 6), halo=13.0, meas_pt=(30.0, 45.0), footprint=True, precision="double")
+    if name == "G":  # same mode count, domain and halo as E on ANOTHER grid (10x8): collides with E on anything keyed without the grid
+        z, prof = sl.build_profiles("most_aniso", 4)
+        return dict(srf_flx=np.zeros((8, 10)), z=z, profiles=prof, domain=(80.0, 90.0), levels=[4, 1, 3], modes=(8, 6), halo=13.0, meas_pt=(30.0, 45.0), footprint=True, precision="double")
     raise ValueError(name)
 
 
@@ -306,6 +310,6 @@ def run(ctx):
         "state_key": "thread settings (bldfm.config, FFT manager, pyfftw, numba) + kernel-dictionary keys + FFTW plan-cache keys + digest of every non-callable module-level object / closure cell of bldfm.* + wisdom environment",
     })
     ctx.rule = (
-        "BFS over histories: from every distinct canonical state reached at depth d every operation of the 11-letter alphabet is executed (one pristine forked process per history, whole history replayed), "
+        "BFS over histories: from every distinct canonical state reached at depth d every operation of the 12-letter alphabet is executed (one pristine forked process per history, whole history replayed), "
         "from both wisdom environments, to depth %d; non-trivial = histories of length >= 2 containing at least one solve; distinct = distinct histories; evaluations counts solver executions" % depth
     )
